@@ -21,6 +21,8 @@ func init() {
 			// a control frame cut inside its payload must not be answered as if it were complete
 			handlerRules(c, "C16")
 			discardedErrorRules(c, "C16")
+			// the sticky error survives the quick reset
+			c18Writer(c)
 		},
 	})
 }
